@@ -83,9 +83,10 @@ Definition append_sites_check : bool :=
 Lemma append_sites_check_ok : append_sites_check = true.
 Proof. vm_compute. reflexivity. Qed.
 
-Definition call_append_sites : list append_site := filter in_call_scope append_sites.
-Definition call_write_sites : list (string * append_site) :=
-  filter (fun ks => in_call_scope (snd ks)) write_sites.
+(* the sites of the call scope, as predicates over the generated tables *)
+Definition call_append_site (s : append_site) : Prop := In s append_sites /\ in_call_scope s = true.
+Definition call_write_site (k : string) (s : append_site) : Prop :=
+  In (k, s) write_sites /\ in_call_scope s = true.
 
 (* fresh | decoded from storage | own local object | constant prefix (cap = len) | derived from it *)
 Definition safe_provenance (s : append_site) : Prop :=
@@ -107,28 +108,28 @@ Proof.
 Qed.
 
 (* soundness of the check, site by site *)
-Theorem append_sites_safe : forall site, In site call_append_sites -> safe_provenance site.
+Theorem append_sites_safe : forall site, call_append_site site -> safe_provenance site.
 Proof.
-  intros site H. apply filter_In in H. destruct H as [Hin Hsc].
+  intros site [Hin Hsc].
   destruct check_parts as [Ha _]. rewrite forallb_forall in Ha. specialize (Ha site Hin).
   unfold append_site_ok in Ha. rewrite Hsc in Ha. apply andb_prop in Ha.
   apply append_safe_class_sound. exact (proj1 Ha).
 Qed.
-Theorem write_sites_safe : forall k site, In (k, site) call_write_sites -> safe_write_provenance site.
+Theorem write_sites_safe : forall k site, call_write_site k site -> safe_write_provenance site.
 Proof.
-  intros k site H. apply filter_In in H. destruct H as [Hin Hsc]. cbn [snd] in Hsc.
+  intros k site [Hin Hsc].
   destruct check_parts as [_ Hw]. rewrite forallb_forall in Hw. specialize (Hw (k, site) Hin).
   unfold write_site_ok in Hw. cbn [snd] in Hw. rewrite Hsc in Hw.
   apply write_safe_class_sound. exact Hw.
 Qed.
 (* in particular: no append to, and no write through, an input slice or a slice of unknown origin *)
-Corollary no_append_to_input : forall site, In site call_append_sites ->
+Corollary no_append_to_input : forall site, call_append_site site ->
   as_class site <> Input /\ as_class site <> Unknown /\ as_class site <> PrivateState.
 Proof.
   intros site H. apply append_sites_safe in H. unfold safe_provenance in H.
   repeat split; intros E; rewrite E in H; repeat (destruct H as [H|H]; try discriminate).
 Qed.
-Corollary no_write_through_input_or_prefix : forall k site, In (k, site) call_write_sites ->
+Corollary no_write_through_input_or_prefix : forall k site, call_write_site k site ->
   as_class site <> Input /\ as_class site <> Unknown /\ as_class site <> PrivateState
   /\ as_class site <> PrefixField /\ as_class site <> PrefixDerived.
 Proof.
@@ -136,10 +137,10 @@ Proof.
   repeat split; intros E; rewrite E in H; repeat (destruct H as [H|H]; try discriminate).
 Qed.
 (* the shared prefixes appended to are exactly the ones the harness measures *)
-Theorem prefix_args_known : forall site, In site call_append_sites -> as_class site = PrefixField ->
+Theorem prefix_args_known : forall site, call_append_site site -> as_class site = PrefixField ->
   In (as_arg site) prefix_names.
 Proof.
-  intros site H Hc. apply filter_In in H. destruct H as [Hin Hsc].
+  intros site [Hin Hsc] Hc.
   destruct check_parts as [Ha _]. rewrite forallb_forall in Ha. specialize (Ha site Hin).
   unfold append_site_ok in Ha. rewrite Hsc in Ha. apply andb_prop in Ha. destruct Ha as [_ Hk].
   unfold known_prefix_arg in Hk. rewrite Hc in Hk. apply existsb_exists in Hk.
@@ -165,9 +166,9 @@ Section Machine.
 
   Variable prot : nat -> Prop.           (* arrays of the input structure and of the shared prefixes *)
   Variable next0 : nat.                  (* the allocation pointer when the call starts *)
-  Variable prefix_slice : gslice -> Prop.(* the slice values stored in the prefix fields / variables *)
-  Variable asites : list append_site.
-  Variable wsites : list (string * append_site).
+  Variable prefix_slice : gslice -> Prop. (* the slice values stored in the prefix fields / variables *)
+  Variable asite : append_site -> Prop.              (* the append sites the execution may pass through *)
+  Variable wsite : string -> append_site -> Prop.    (* the other write sites *)
 
   (* a slice of the call's own: the nil slice (no capacity), or over an array allocated by the call *)
   Definition own_slice (m : mach) (s : gslice) : Prop :=
@@ -186,10 +187,10 @@ Section Machine.
   | step_alloc content :                                 (* make, new, literals, decoding, big.Int.Bytes, ... *)
       step m {| m_heap := upd (m_heap m) (m_next m) content; m_next := S (m_next m) |}
   | step_append site s xs extra :                        (* append(x, xs...) at a site of the table *)
-      In site asites -> admits (as_class site) m s ->
+      asite site -> admits (as_class site) m s ->
       step m {| m_heap := fst (go_append junk (m_heap m) (m_next m) extra s xs); m_next := S (m_next m) |}
   | step_write kind site s p vs :                        (* x[i] = v, copy(x, vs): inside the window of x *)
-      In (kind, site) wsites -> admits (as_class site) m s ->
+      wsite kind site -> admits (as_class site) m s ->
       s_len s <= s_cap s -> p + length vs <= s_len s ->
       step m {| m_heap := upd (m_heap m) (s_arr s) (write_at (s_off s + p) vs (m_heap m (s_arr s)));
                 m_next := m_next m |}.
@@ -199,8 +200,8 @@ Section Machine.
 
   Hypothesis prot_old : forall j, prot j -> j < next0.
   Hypothesis prefix_full : forall s, prefix_slice s -> s_cap s = s_len s.      (* checked by the harness *)
-  Hypothesis asites_safe : forall site, In site asites -> safe_provenance site.
-  Hypothesis wsites_safe : forall k site, In (k, site) wsites -> safe_write_provenance site.
+  Hypothesis asites_safe : forall site, asite site -> safe_provenance site.
+  Hypothesis wsites_safe : forall k site, wsite k site -> safe_write_provenance site.
 
   Lemma append_own_keeps m s xs extra j : next0 <= m_next m -> prot j -> own_slice m s ->
     fst (go_append junk (m_heap m) (m_next m) extra s xs) j = m_heap m j.
@@ -267,11 +268,11 @@ Theorem calls_never_write_input_or_prefix :
     (forall j, prot j -> j < next0) ->
     (forall s, prefix_slice s -> s_cap s = s_len s) ->
     forall m0 m : mach E, m_next m0 = next0 ->
-      steps E junk next0 prefix_slice call_append_sites call_write_sites m0 m ->
+      steps E junk next0 prefix_slice call_append_site call_write_site m0 m ->
       forall j, prot j -> m_heap m j = m_heap m0 j.
 Proof.
   intros E junk prot next0 prefix_slice Hold Hfull m0 m H0 Hs.
-  exact (exec_no_protected_write E junk prot next0 prefix_slice call_append_sites call_write_sites
+  exact (exec_no_protected_write E junk prot next0 prefix_slice call_append_site call_write_site
            Hold Hfull append_sites_safe write_sites_safe m0 m H0 Hs).
 Qed.
 
@@ -284,14 +285,14 @@ Definition site_prefix : append_site :=
 Example spare_prefix_is_written :
   let pfx := {| s_arr := 0; s_off := 0; s_len := 3; s_cap := 5 |} in
   let m0 := {| m_heap := fun _ => [1; 2; 3; 0; 0]; m_next := 1 |} in
-  exists m, step nat 0 1 (fun s => s = pfx) [site_prefix] [] m0 m
+  exists m, step nat 0 1 (fun s => s = pfx) (eq site_prefix) (fun _ _ => False) m0 m
             /\ safe_provenance site_prefix /\ m_heap m 0 = [1; 2; 3; 9; 0] /\ m_heap m 0 <> m_heap m0 0.
 Proof.
   intros pfx m0.
   exists {| m_heap := fst (go_append 0 (m_heap m0) (m_next m0) 0 pfx [9]); m_next := S (m_next m0) |}.
   split; [|split; [|split]].
-  - apply (step_append nat 0 1 (fun s => s = pfx) [site_prefix] [] m0 site_prefix pfx [9] 0).
-    + left. reflexivity.
+  - apply (step_append nat 0 1 (fun s => s = pfx) (eq site_prefix) (fun _ _ => False) m0 site_prefix pfx [9] 0).
+    + reflexivity.
     + reflexivity.
   - right. right. right. left. reflexivity.
   - reflexivity.
@@ -306,15 +307,15 @@ Example input_class_is_unsafe :
   let arg0 := {| s_arr := 0; s_off := 0; s_len := 2; s_cap := 4 |} in
   let arg1 := {| s_arr := 0; s_off := 2; s_len := 2; s_cap := 2 |} in
   let m0 := {| m_heap := fun _ => [1; 2; 3; 4]; m_next := 1 |} in
-  exists m, step nat 0 1 (fun _ => False) [site_input] [] m0 m
+  exists m, step nat 0 1 (fun _ => False) (eq site_input) (fun _ _ => False) m0 m
             /\ ~ safe_provenance site_input
             /\ sview (m_heap m0) arg1 = [3; 4] /\ sview (m_heap m) arg1 = [9; 4].
 Proof.
   intros arg0 arg1 m0.
   exists {| m_heap := fst (go_append 0 (m_heap m0) (m_next m0) 0 arg0 [9]); m_next := S (m_next m0) |}.
   split; [|split; [|split]].
-  - apply (step_append nat 0 1 (fun _ => False) [site_input] [] m0 site_input arg0 [9] 0).
-    + left. reflexivity.
+  - apply (step_append nat 0 1 (fun _ => False) (eq site_input) (fun _ _ => False) m0 site_input arg0 [9] 0).
+    + reflexivity.
     + exact I.
   - unfold safe_provenance. cbn. intros H. repeat (destruct H as [H|H]; try discriminate).
   - reflexivity.
@@ -332,7 +333,7 @@ Example safe_run_example :
   let pfx := {| s_arr := 1; s_off := 0; s_len := 2; s_cap := 2 |} in
   let h0 : heap nat := fun j => match j with 0 => [7; 7; 7] | 1 => [5; 6] | _ => [] end in
   let m0 := {| m_heap := h0; m_next := 2 |} in
-  exists m, steps nat 0 2 (fun s => s = pfx) [site_prefix; site_own] [site_wr] m0 m
+  exists m, steps nat 0 2 (fun s => s = pfx) (fun s => s = site_prefix \/ s = site_own) (fun k s => (k, s) = site_wr) m0 m
             /\ m_heap m 0 = [7; 7; 7] /\ m_heap m 1 = [5; 6] /\ m_heap m 2 = [5; 6; 7; 0] /\ m_heap m 3 = [4; 8].
 Proof.
   intros pfx h0 m0.
@@ -350,7 +351,7 @@ Proof.
     { apply (step_alloc nat 0 2 (fun s => s = pfx) _ _ m1 [4; 0]). }
     apply steps_step with m3.
     { apply (step_write nat 0 2 (fun s => s = pfx) _ _ m2 "index" (snd site_wr) buf 1 [8]).
-      - left. reflexivity.
+      - reflexivity.
       - right. cbn. lia.
       - cbn. lia.
       - cbn. lia. }
